@@ -38,11 +38,44 @@ _ASSUME = ["root contexts are not cancelled from outside while installed (the mo
            "the harness realises the eager schedule for blocked instances and WaitExited callers; the theorems cover every placement of the wake-ups",
            "exit callbacks only log (they run inside the bookkeeping section)"]
 
+_TECH = "Coq inductive invariant over a gate-level interleaving model + schedule-controlled differential correspondence (synctest, fake clock) against the Go code"
+
 PROPS = {
     "C04": dict(pid=4, coq=_COQ + ["Routine/Props_C04.v"], props_file="Routine/Props_C04.v", models=_MODELS, trusted=_TRUSTED, assumptions=_ASSUME,
-                meta=dict(text="", note=NOTE, technique="")),
-    "C05": dict(pid=5, coq=_COQ + ["Routine/Props_C05.v"], props_file="Routine/Props_C05.v", models=_MODELS, trusted=_TRUSTED, assumptions=_ASSUME,
-                meta=dict(text="", note=NOTE, technique="")),
-    "C14": dict(pid=14, coq=_COQ + ["Routine/Props_C14.v"], props_file="Routine/Props_C14.v", models=_MODELS, trusted=_TRUSTED, assumptions=_ASSUME,
-                meta=dict(text="", note=NOTE, technique="")),
+                meta=dict(
+                    text="Coq theorems over ALL event lists of a gate-level model of RoutineContainer/StateRoutineContainer (any number of "
+                         "instances, every interleaving of API sections, first-select choices, wake-ups, user-function returns, bookkeeping "
+                         "sections, timer callbacks): the exit-channel chain invariant (each instance waits on its predecessor; an exit channel "
+                         "closes only when its instance and all earlier ones have left user code) => at most one instance inside the managed "
+                         "function, and the channel returned by SetRoutine/SetState closes only after all earlier instances returned. The pinned "
+                         "code's violations (D2, D3) are _refuted theorems and corpus histories. Model tied to the code by scheduled differential "
+                         "correspondence; the monitors (<=1 instance in user code; closed waitReturn => earlier instances returned) run on the "
+                         "implementation's observations.",
+                    note=NOTE + "Root contexts are never cancelled from outside in the model. Gate placement trusted.",
+                    technique=_TECH)),
+    "C05": dict(pid=5, coq=_COQ + ["Routine/ProofsC05.v", "Routine/Props_C05.v"], props_file="Routine/Props_C05.v", models=_MODELS, trusted=_TRUSTED, assumptions=_ASSUME,
+                meta=dict(
+                    text="Coq invariant over all event lists of the same model: an instance whose context is live is the current instance of the "
+                         "current routine record, the container has a context, the instance derives from exactly that context and (state variant) "
+                         "carries the currently stored non-empty state; hence at most one live instance, every superseded instance is cancelled "
+                         "when the call returns, and no live instance without context/routine/state. Concurrency: every API call is one critical "
+                         "section, so concurrent calls are interleavings of the model's events (the lock discipline is C13's obligation; the pinned "
+                         "code's wrong lock, D5, is repaired). Monitors on the implementation's observations: every live in-user instance is the "
+                         "newest one, has the current root context and state, and exists only if context, routine and state are set.",
+                    note=NOTE + "The harness observes an instance's context only while it is inside the user function.",
+                    technique=_TECH)),
+    "C14": dict(pid=14, coq=_COQ + ["Routine/ProofsC14.v", "Routine/Props_C14.v"], props_file="Routine/Props_C14.v", models=_MODELS, trusted=_TRUSTED, assumptions=_ASSUME,
+                meta=dict(
+                    text="Coq theorems about the same model, per step from every state (hence along every event list): only API calls and retry "
+                         "callbacks start instances; a recorded success is never re-run by SetContext; a recorded error is not re-run by SetContext "
+                         "without restart, which leaves the pending retry untouched (D4 repaired); the retry timer fires at its deadline and its "
+                         "callback restarts (D20, a stale callback restarting a succeeded routine, was found by this check and repaired); bookkeeping "
+                         "records status and back-off index (reset on success); exit callbacks exactly once per current exit; WaitExited returns the "
+                         "current record's status. The reference machine itself is the monitor state run on the implementation's observations "
+                         "(clauses: no re-run after success / after error except by the listed causes, retry pending until it fires, WaitExited "
+                         "result, exit reporting).",
+                    note=NOTE + "PARTIAL: the full refinement of the model to the reference machine is not a single theorem; the reference machine is "
+                                "the monitor, evaluated on every implementation trace, and the per-step theorems cover its transitions. 'Returned nil' "
+                                "means recorded as the current instance's exit (DESIGN.md C14 interpretation).",
+                    technique=_TECH)),
 }
